@@ -10,8 +10,9 @@
       differ (the property itself, as a Boolean on the IMPLEMENTATION's observed traces).
 
     The allow-list is ARGUMENT, not proof: each row names the reason why the value cannot reach state, results
-    or events ([reasons]).  Rows whose reason is a finding ([F_...]) are NOT harmless: they are the source
-    locations of the defects the replay engine exhibits. *)
+    or events ([reasons]).  A reason id starting with [F_] would mark the source location of an UNREPAIRED finding
+    (not harmless, exhibited by the replay engine); there is none at present: the two findings of this property
+    (eth-ethash-tmpdir, typed-event-attr-order) are repaired in /repo and their constructs are no longer allowed. *)
 From Coq Require Import List String NArith Bool.
 From Teleport Require Import Base.Bytes Gen.HazardsGen Model.MapLoops.
 Import ListNotations.
@@ -68,13 +69,11 @@ Definition reasons : list (string * string) := [
   ("R_ethash_cache_gen", "generateCache: the goroutine + time.* only LOG progress; unsafe/reflect re-view the []uint32 buffer as bytes (and the words are byte-swapped on big-endian hosts), so the cache words are a function of (epoch, seed)");
   ("R_ethash_full_dag", "full-DAG (dataset) generation: used only when VerifySeal is called with fulldag = true; VerifyCascadingFields passes false");
   ("R_ethash_future_cache", "Ethash.cache starts `go future.generate(...)` to pre-build the NEXT epoch's cache; the current verification uses only `current`, which it waits for synchronously (sync.Once); the pre-built cache is dropped with the Ethash instance (a cost, not a result)");
-  ("R_ethash_disk_cache", "memory-mapped cache file under Config.CacheDir: when mapping or creating the file fails, cache.generate falls back to generating the same words in memory, so with a usable directory the result does not depend on the file system; the directory itself comes from VerifyCascadingFields (see F_ethash_tmpdir)");
+  ("R_ethash_disk_cache", "memory-mapped cache file under Config.CacheDir: when mapping or creating the file fails, cache.generate falls back to generating the same words in memory, so with a usable directory the result does not depend on the file system; since fix b24f7c9 (finding eth-ethash-tmpdir) VerifyCascadingFields passes CacheDir = "" and this path is not reached at all; any os/ioutil use in VerifyCascadingFields is NOT allowed");
   ("R_ethash_lifecycle", "struct fields / constructor / Close of the Ethash engine: channels, mutexes, sync.Once and a *rand.Rand that belong to sealing (see R_ethash_mining) and to the one-time cache generation");
   ("R_endianness", "isLittleEndian inspects the host byte order through unsafe.Pointer so that cache words are swapped to the canonical (little-endian) layout: it makes the result independent of the host");
   ("R_keepalive", "runtime.KeepAlive keeps the cache object reachable until hashimoto returns (garbage-collection liveness only)");
-  ("R_typed_event_sorted", "types.EmitTypedEvent (repair of F_typed_event): sdk.TypedEventToEvent is followed by a stable sort of the attributes by key before the event is emitted");
-  ("F_ethash_tmpdir", "FINDING eth-ethash-tmpdir — NOT harmless: VerifyCascadingFields returns an error when ioutil.TempDir fails, so a node without a usable temporary directory rejects ETH headers (ChainId <> 4) that other nodes accept; exhibited by the replay engine");
-  ("F_typed_event", "FINDING typed-event-attr-order — NOT harmless for events: EventManager.EmitTypedEvent (cosmos-sdk v0.45.2 TypedEventToEvent) orders the attributes of the event by ranging over a Go map; exhibited by the replay engine (state hash unaffected)")
+  ("R_typed_event_sorted", "types.EmitTypedEvent (fix b88fea5 of finding typed-event-attr-order): sdk.TypedEventToEvent — whose attribute order is the iteration order of a Go map in cosmos-sdk v0.45.2 — is followed by a stable sort of the attributes by key before the event is emitted; a direct EventManager.EmitTypedEvent call is NOT allowed anywhere")
 ].
 
 (** (file, function, total number of hazardous constructs in that function, reason id) *)
@@ -114,15 +113,7 @@ Definition allow_list : list (string * string * N * string) := [
   ("syscontracts/xibc_endpoint/endpoint.go", "init", 1%N, "R_json_sorted");
   ("syscontracts/xibc_endpoint/execute.go", "init", 1%N, "R_json_sorted");
   ("syscontracts/xibc_packet/packet.go", "init", 1%N, "R_json_sorted");
-  ("x/aggregate/keeper/ibc_hook.go", "(Keeper).OnRecvPacket", 6%N, "F_typed_event");
   ("x/aggregate/module/module.go", "(AppModule).RandomizedParams", 1%N, "R_simulation");
-  ("x/aggregate/proposal_handler.go", "handleAddCoinProposal", 1%N, "F_typed_event");
-  ("x/aggregate/proposal_handler.go", "handleDisableTimeBasedSupplyLimitProposal", 1%N, "F_typed_event");
-  ("x/aggregate/proposal_handler.go", "handleEnableTimeBasedSupplyLimitProposal", 1%N, "F_typed_event");
-  ("x/aggregate/proposal_handler.go", "handleRegisterCoinProposal", 1%N, "F_typed_event");
-  ("x/aggregate/proposal_handler.go", "handleRegisterERC20Proposal", 1%N, "F_typed_event");
-  ("x/aggregate/proposal_handler.go", "handleToggleRelayProposal", 1%N, "F_typed_event");
-  ("x/aggregate/proposal_handler.go", "handleUpdateTokenPairERC20Proposal", 1%N, "F_typed_event");
   ("x/rvesting/module/abci.go", "BeginBlocker", 1%N, "R_telemetry");
   ("x/rvesting/module/module.go", "(AppModule).InitGenesis", 1%N, "R_telemetry");
   ("x/xibc/clients/light-clients/bsc/types/hashing.go", "<package-level hasherPool>", 1%N, "R_hasher_pool");
@@ -146,7 +137,6 @@ Definition allow_list : list (string * string * N * string) := [
   ("x/xibc/clients/light-clients/eth/types/ethash.go", "memoryMapAndGenerate", 7%N, "R_ethash_disk_cache");
   ("x/xibc/clients/light-clients/eth/types/ethash.go", "memoryMapFile", 9%N, "R_ethash_disk_cache");
   ("x/xibc/clients/light-clients/eth/types/hashing.go", "<package-level hasherPool>", 1%N, "R_hasher_pool");
-  ("x/xibc/clients/light-clients/eth/types/header.go", "VerifyCascadingFields", 2%N, "F_ethash_tmpdir");
   ("x/xibc/clients/light-clients/eth/types/sealer.go", "(*Ethash).Seal", 24%N, "R_ethash_mining");
   ("x/xibc/clients/light-clients/eth/types/sealer.go", "(*Ethash).mine", 8%N, "R_ethash_mining");
   ("x/xibc/clients/light-clients/eth/types/sealer.go", "(*remoteSealer).loop", 18%N, "R_ethash_mining");
@@ -159,15 +149,6 @@ Definition allow_list : list (string * string * N * string) := [
   ("x/xibc/clients/light-clients/eth/types/sealer.go", "<type sealWork>", 2%N, "R_ethash_mining");
   ("x/xibc/clients/light-clients/eth/types/sealer.go", "startRemoteSealer", 9%N, "R_ethash_mining");
   ("x/xibc/clients/light-clients/eth/types/verify_header.go", "(*Ethash).VerifySeal", 2%N, "R_keepalive");
-  ("x/xibc/core/client/keeper/client.go", "(Keeper).UpdateClient", 1%N, "F_typed_event");
-  ("x/xibc/core/client/proposal_handler.go", "handleCreateClientProposal", 1%N, "F_typed_event");
-  ("x/xibc/core/client/proposal_handler.go", "handleRegisterRelayerProposal", 1%N, "F_typed_event");
-  ("x/xibc/core/client/proposal_handler.go", "handleToggleClientProposal", 1%N, "F_typed_event");
-  ("x/xibc/core/client/proposal_handler.go", "handleUpgradeClientProposal", 1%N, "F_typed_event");
-  ("x/xibc/core/packet/keeper/packet.go", "(Keeper).AcknowledgePacket", 2%N, "F_typed_event");
-  ("x/xibc/core/packet/keeper/packet.go", "(Keeper).RecvPacket", 2%N, "F_typed_event");
-  ("x/xibc/core/packet/keeper/packet.go", "(Keeper).SendPacket", 1%N, "F_typed_event");
-  ("x/xibc/core/packet/keeper/packet.go", "(Keeper).WriteAcknowledgement", 1%N, "F_typed_event");
   ("x/xibc/module/module.go", "(AppModule).RandomizedParams", 1%N, "R_simulation");
   ("types/events.go", "EmitTypedEvent", 1%N, "R_typed_event_sorted")
 ].
